@@ -138,8 +138,11 @@ def check_case(case):
     if o.kind == "nosol":
         v.cls("no_solution")
         return v
+    if o.kind in ("skipped", "budget"):
+        v.inconclusive = "conditioned game T_c > limit" if o.kind == "skipped" else "sweep budget exceeded (reported by C06)"
+        return v
     if o.kind != "ok":
-        v.inconclusive = "conditioned game T_c > limit" if o.kind == "skipped" else "solve failed (reported by C06)"
+        v.fail("solve-raises", "a well-formed stopping game is not solved: " + o.brief(), sig=f"{o.kind}@{o.where}")
         return v
     label = f"solve(prune={prune})"
     inclusion(v, game["players"], a.final, a.reach_strat, label)
